@@ -107,7 +107,7 @@ Proof.
     destruct (Nat.ltb_spec c (length (ths s))) as [Hc|Hc]; cbn [negb orb] in H; [|discriminate].
     destruct (started (getth s c)) eqn:Hsc; cbn [orb] in H; [discriminate|].
     destruct (Nat.leb_spec k (refs (getth s t))) as [Hk|Hk]; cbn [negb orb] in H; [|discriminate].
-    destruct (lends_from s t); [discriminate|].
+    destruct (lends_from s t && Nat.leb (refs (getth s t) - k) 0); [discriminate|].
     injection H as <-. unfold with_th, getth; cbn [ths].
     rewrite (getth_upd_ne _ c t) by auto. rewrite getth_upd_eq by exact Ht.
     rewrite getth_upd_eq by (rewrite upd_length; exact Hc).
